@@ -137,3 +137,7 @@ from props import workbench as WB   # noqa: E402
 CLAUSES.append(Clause("object_history", lambda tier: WB.fa_programs(tier, "minimize"), WB.run_fa, quick=500, thorough=5000,
                       rule="(the three minimisers on DFA objects with a history: queried, minimised, modified in place or by assigning new values to their fields, minimised again) " + WB.FA_RULE))
 KNOWN_PREDICATES = {}
+
+# coverage-guided second driver (atheris / libFuzzer through Hypothesis' fuzz_one_input) for the core clauses: (clause, quick runs, thorough runs)
+from harness.covfuzz import cov_clauses  # noqa: E402
+CLAUSES += cov_clauses('C04', CLAUSES, [('minimize', 2000, 40000), ('quotient', 2000, 40000), ('hopcroft', 2000, 40000)])
